@@ -444,6 +444,30 @@ func c09NewPending(t *core.T, wd *sim.World, m *pendModel, v *sim.View) *wire.Ms
 	})
 	in := cands[t.R.Intn(len(cands))]
 	val := in.Value - in.Value/100
+	ins := []wire.OutPoint{in.OP}
+	if kind == 0 && t.R.Chance(45) {
+		// jointly funded: a coin of somebody else (or a second wallet coin) next to the wallet's, in
+		// either order - the wallet's input is not always input 0
+		var extra []*sim.Out
+		for _, o := range v.SortedOuts() {
+			if o.Spent || !o.HasHash || o.Value < 1000 || usedByPending[o.OP] || !v.Mature(o) || o.OP == in.OP || o.Class != sim.ClassStd {
+				continue
+			}
+			if _, mine := owned[o.Hash]; !mine || t.R.Chance(20) {
+				extra = append(extra, o)
+			}
+		}
+		if len(extra) > 0 {
+			x := extra[t.R.Intn(len(extra))]
+			val += x.Value - x.Value/100
+			if t.R.Chance(60) {
+				ins = []wire.OutPoint{x.OP, in.OP}
+			} else {
+				ins = append(ins, x.OP)
+			}
+			t.Count("pending_transactions_with_two_inputs", 1)
+		}
+	}
 	var outs []*wire.TxOut
 	// first output to a wallet (so that it is relevant when a stranger pays), change to stranger
 	h1, _ := wd.WalletHashPub()
@@ -461,7 +485,7 @@ func c09NewPending(t *core.T, wd *sim.World, m *pendModel, v *sim.View) *wire.Ms
 	if t.R.Bool() {
 		outs[0], outs[1] = outs[1], outs[0] // the wallet's output (possibly a deposit) is not always output 0
 	}
-	return sim.Spend([]wire.OutPoint{in.OP}, nil, outs, uint64(t.R.Uint64()|1))
+	return sim.Spend(ins, nil, outs, uint64(t.R.Uint64()|1))
 }
 
 func c09Case(t *core.T, maxSteps int) {
